@@ -103,6 +103,15 @@ def run(ctx):
     bad = [i for i in ck.calls() if q.short_of(ck.callee(i)) in ('compare', 'find', 'rfind') and ck.N(i)['k'] == 'CXXMemberCallExpr' and ck.ref_of(ck.obj(i)) == normal]
     pf = [i for i in ck.calls() if (ck.callee(i) or '').endswith('is_file_prefix')]
     ctx.check(not bad and len(pf) >= 1, R2, 'check_in_document_root:alias-match-is-component-wise', 'alias matched with a raw string comparison', ck.where)
+    # symlink checking is on unless the configuration turns it off
+    ctor = [f for f in P.fns.values() if f.brecord == S and f.kind == 'ctor' and f.entry is not None]
+    ctx.require(ctor, 'C13.R2: file_server constructor not found')
+    csw = [w for w in q.field_writes(ctor[0], 'file_server::check_symlinks_')]
+    okd = len(csw) == 1
+    if okd:
+        gets = [i for i in ctor[0].calls(csw[0]) if q.short_of(ctor[0].bcallee(i) or '') == 'get']
+        okd = len(gets) == 1 and any(ctor[0].N(j)['k'] == 'StringLiteral' and ctor[0].N(j).get('s') == 'file_server.check_symlink' for j in ctor[0].walk(gets[0])) and ctor[0].const_value(ctor[0].args(gets[0])[1]) == 1
+    ctx.check(okd, R2, 'file_server:symlink-check-on-by-default', 'a configuration that does not mention file_server.check_symlink runs without the realpath containment test', ctor[0].loc(csw[0]) if csw else ctor[0].where)
     # an alias is applied (its target becomes the root, its prefix is cut off the path) only when it prefixes the path as whole components
     rootv = [d['ref'] for i in ck.all_nodes() if ck.N(i)['k'] == 'DeclStmt' for d in ck.N(i)['decls'] if d.get('init') is not None and
              any(model.strip_targs(r).endswith('file_server::document_root_') for r in ck.subtree_refs(d['init']))]
@@ -132,9 +141,10 @@ def run(ctx):
             again = [i for i in ck.calls(L_) if (ck.callee(i) or '').endswith('is_file_prefix')]
             # from the application, the next alias test is unreachable without leaving the loop
             pw = ck.last_point_of(w)
-            reach = ck.reachable_blocks(start=pw[0], cut_blocks=[ck.point_of(j)[0] for j in leaves if ck.point_of(j)[0] != pw[0]])
+            # (a loop left through a flag that the application sets is followed by the path-sensitive reachability)
+            reach = ck.reachable_blocks_flags([], [lambda a_, p_: False], start=pw[0], cut_blocks=[ck.point_of(j)[0] for j in leaves if ck.point_of(j)[0] != pw[0]])
             later_same_block = [j for j in leaves if ck.point_of(j)[0] == pw[0] and ck.point_of(j)[1] > pw[1]]
-            okf = bool(leaves) and (bool(later_same_block) or not any(ck.point_of(i)[0] in reach and ck.point_of(i)[0] != pw[0] for i in again))
+            okf = bool(later_same_block) or not any(ck.point_of(i)[0] in reach and ck.point_of(i)[0] != pw[0] for i in again)
             ctx.check(okf, R2, 'check_in_document_root:alias-applied#%d:then-no-further-alias' % k_, 'after one alias was applied a second alias can be matched against the already cut path', ck.loc(w))
         # without symlink checking the result is root + path with at most one trailing separator removed
         realp_ = q.param_by_index(ck, 1)
@@ -177,7 +187,17 @@ def run(ctx):
     ctx.require(fp, 'C13.R2: is_file_prefix not found')
     fp = fp[0]
     pre, full = q.param_by_index(fp, 0), q.param_by_index(fp, 1)
-    g_len = fp.gate_edges(lambda atom, pol: fp.N(atom)['k'] == 'BinaryOperator' and fp.N(atom).get('op') == '>' and any(q.short_of(fp.callee(j)) == 'size' and fp.ref_of(fp.obj(j)) == full for j in fp.calls(fp.N(atom)['ch'][1])) and pol is False)
+    from vlib import lin as _lin
+    SYL = q.symb_with_locals(fp)          # single-definition locals (prefix_size, full_size) stand for their initialisers
+    PSa, FSa = _lin.Lin.atom(pre + '.size()'), _lin.Lin.atom(full + '.size()')
+
+    def long_enough(atom, pol):
+        n_ = fp.N(atom)
+        if n_['k'] != 'BinaryOperator' or n_.get('op') not in ('<', '<=', '>', '>='):
+            return False
+        cons = SYL.rel(atom, pol)
+        return bool(cons) and _lin.implies(cons, _lin.ge(FSa - PSa))
+    g_len = fp.gate_edges(long_enough)
     mc = [i for i in fp.calls() if fp.callee(i) == 'memcmp']
     g_eq = fp.gate_edges(lambda atom, pol: fp.N(atom)['k'] == 'BinaryOperator' and fp.N(atom).get('op') in ('!=', '==') and any(fp.callee(j) == 'memcmp' for j in fp.calls(atom)) and
                          fp.const_value(fp.N(atom)['ch'][1]) == 0 and ((fp.N(atom)['op'] == '!=' and pol is False) or (fp.N(atom)['op'] == '==' and pol is True)))
@@ -185,16 +205,8 @@ def run(ctx):
     ctx.check(bool(succ) and all(fp.only_through(r, g_len) and fp.only_through(r, g_eq) for r in succ), R2, 'is_file_prefix:length-and-bytes', 'prefix accepted without the length test and the byte comparison', fp.where)
     # the boundary test: success only if the prefix is empty, ends with a separator, is the whole of `full`
     # (decided by linear implication: the guard taken must force full.size() == prefix.size()), or `full` continues with a separator
-    from vlib import lin as _lin
-    SY = _lin.Symb(fp)
-    psz_var = None
-    for i in fp.all_nodes():
-        if fp.N(i)['k'] == 'DeclStmt':
-            for d in fp.N(i)['decls']:
-                if d.get('init') is not None and any(q.short_of(fp.callee(j)) == 'size' and fp.ref_of(fp.obj(j)) == pre for j in fp.calls(d['init'])):
-                    psz_var = d['ref']
-    PS = _lin.Lin.atom(psz_var) if psz_var else _lin.Lin.atom(pre + '.size()')
-    FS = _lin.Lin.atom(full + '.size()')
+    SY = SYL
+    PS, FS = PSa, FSa
 
     def boundary(atom, pol):
         n = fp.N(atom)
@@ -210,7 +222,6 @@ def run(ctx):
             cons = SY.rel(atom, pol)
             if not cons:
                 return False
-            cons = [(k, _subst(e, fp, full, FS)) for (k, e) in cons]
             if _lin.implies(cons + [_lin.ge(PS)], _lin.eq(PS)):           # prefix_size == 0
                 return True
             # with the length test already passed (full.size() >= prefix_size) the guard forces equality
@@ -227,41 +238,52 @@ def run(ctx):
 
     # ---------------- R3
     nz = P.fn(S + '::normalize_path')
-    outv = None
-    decs = []
-    for i in nz.all_nodes():
-        n = nz.N(i)
-        if (n['k'] == 'UnaryOperator' and n.get('op') == '--') or (n['k'] == 'CXXOperatorCallExpr' and n.get('op') == '--'):
-            decs.append(i)
-    ctx.require(len(decs) >= 3, 'C13.R3: expected >=3 cursor decrements in normalize_path, found %d' % len(decs))
     pathp = q.param_by_index(nz, 0)
 
-    def floor_expr(x):
-        """is x  path.begin()+1  (directly or via a local initialised with it)"""
-        x = _def_or_self(nz, x)
-        has_begin = any(q.short_of(nz.callee(j)) == 'begin' and nz.ref_of(nz.obj(j)) == pathp for j in nz.calls(x) if nz.N(j)['k'] == 'CXXMemberCallExpr')
-        one = any(nz.const_value(j) == 1 for j in nz.walk(x))
-        return has_begin and one
-    for k, d in enumerate(decs):
-        var = nz.ref_of(nz.N(d)['ch'][1] if nz.N(d)['k'] == 'CXXOperatorCallExpr' else nz.N(d)['ch'][0])
+    def floor_in(fn, x, floors):
+        """is x  path.begin()+1  (directly or via a local initialised with it), or one of `floors` (a parameter that stands for it)"""
+        if fn.ref_of(x) in floors:
+            return True
+        x = _def_or_self(fn, x)
+        has_begin = any(q.short_of(fn.callee(j)) == 'begin' and fn.ref_of(fn.obj(j)) == pathp for j in fn.calls(x) if fn.N(j)['k'] == 'CXXMemberCallExpr')
+        one = any(fn.const_value(j) == 1 for j in fn.walk(x))
+        return fn is nz and has_begin and one
+    # the functions that move the output cursor back: normalize_path itself and helpers of the file it hands the cursor and the floor to
+    hosts = [(nz, set())]
+    for c in nz.calls():
+        g = P.fns.get(nz.N(c).get('callee') or '')
+        if g is None or g.entry is None or g.file != nz.file or g is nz or g.kind not in ('function', 'method'):
+            continue
+        fl = set(g.params[k]['ref'] for k, a in enumerate(nz.args(c)) if k < len(g.params) and floor_in(nz, a, set()))
+        if fl:
+            hosts.append((g, fl))
+    decs = []
+    for (fn, floors) in hosts:
+        for i in fn.all_nodes():
+            n = fn.N(i)
+            if (n['k'] == 'UnaryOperator' and n.get('op') == '--') or (n['k'] == 'CXXOperatorCallExpr' and n.get('op') == '--'):
+                decs.append((fn, floors, i))
+    ctx.require(len(decs) >= 2, 'C13.R3: expected cursor decrements in normalize_path (or a helper it hands the cursor to), found %d' % len(decs))
+    for k, (fn, floors, d) in enumerate(decs):
+        var = fn.ref_of(fn.N(d)['ch'][1] if fn.N(d)['k'] == 'CXXOperatorCallExpr' else fn.N(d)['ch'][0])
 
-        def above(atom, pol, var=var):
-            n = nz.N(atom)
+        def above(atom, pol, var=var, fn=fn, floors=floors):
+            n = fn.N(atom)
             if n.get('op') not in ('>', '<', '>=', '<=') or n['k'] not in ('CXXOperatorCallExpr', 'BinaryOperator'):
                 return False
             ch = n['ch'][1:] if n['k'] == 'CXXOperatorCallExpr' else n['ch']
             l, r = ch
-            if nz.ref_of(l) == var and floor_expr(r):
+            if fn.ref_of(l) == var and floor_in(fn, r, floors):
                 return n['op'] == '>' and pol is True
-            if nz.ref_of(r) == var and floor_expr(l):
+            if fn.ref_of(r) == var and floor_in(fn, l, floors):
                 return n['op'] == '<' and pol is True
             return False
-        g = nz.gate_edges(above)
-        okd = nz.only_through(d, g)
+        g = fn.gate_edges(above)
+        okd = fn.only_through(d, g)
         # ... and the guard is the branch immediately governing the decrement (no other write of the cursor in between)
-        pb = nz.point_of(d)[0]
+        pb = fn.point_of(d)[0]
         direct = any(t == pb for (_, t, _, _) in [e for e in g if len(e) == 4])
-        ctx.check(okd and direct, R3, 'normalize_path:decrement#%d:only-above-floor' % k, 'output cursor decremented without the `out > begin+1` guard', nz.loc(d))
+        ctx.check(okd and direct, R3, 'normalize_path:decrement#%d:only-above-floor' % k, 'output cursor decremented without the `out > begin+1` guard', fn.loc(d))
     rs = [i for i in nz.calls() if q.short_of(nz.callee(i)) == 'resize' and nz.ref_of(nz.obj(i)) == pathp]
     ctx.check(len(rs) == 1 and q.always_before_exit(nz, rs), R3, 'normalize_path:result-truncated-to-cursor', 'result is not cut at the output cursor', nz.where)
 
